@@ -191,6 +191,28 @@ func init() {
 		}
 		return nil
 	}
+	// vAssertPossible(cond, msg): it is a violation if cond cannot hold on this
+	// path (existential check, e.g. "two random serials can differ").
+	harnessAPI["vAssertPossible"] = func(fr *frame, args []value) value {
+		i := fr.i
+		msg := goString(args[1])
+		c := i.term(args[0])
+		if c.IsTrue() || i.replaying() {
+			return nil
+		}
+		r := smt.Unsat
+		if !c.IsFalse() {
+			r = i.solver.CheckWith(c)
+		}
+		if r == smt.Unknown {
+			panic(pathAbort{OutUnknown, "solver unknown on possibility check: " + msg})
+		}
+		if r == smt.Unsat {
+			i.sched.report(Finding{Harness: i.harness, Msg: msg, Model: i.model(), Trail: trailString(i.ps.top.trail)})
+			panic(pathAbort{OutViolation, msg})
+		}
+		return nil
+	}
 	harnessAPI["vReach"] = func(fr *frame, args []value) value {
 		fr.i.ps.reached[goString(args[0])] = true
 		return nil
